@@ -56,7 +56,7 @@ def jobNetwork (j : Json) : Except String Json := do
     let t : α ← getNum pt "t"
     let n := sidx.length
     let plain (m : Mode) := encList (computePropensities m props x p V t)
-    let safe (m : Mode) := encList (computePropensitiesSafe m n U D props x p V t)
+    let safe (m : Mode) := encList (computePropensitiesSafe m n U D (reactantCols sidx rdefs) props x p V t)
     return Json.mkObj [
       ("det", plain .det), ("vol", plain .vol), ("stoch", plain .stoch), ("svol", plain .svol),
       ("sdet", safe .det), ("svolume", safe .vol), ("sstoch", safe .stoch), ("ssvol", safe .svol),
@@ -117,7 +117,10 @@ def decSimModel (j : Json) : Except String (SimModel α) := do
   let props ← (← getArr j "props").toList.mapM (decProp (α := α))
   let rules ← ((getArr j "rules").toOption.getD #[]).toList.mapM (decRule (α := α))
   let delays ← ((getArr j "delays").toOption.getD #[]).toList.mapM (decDelay (α := α))
-  return { nSpecies := ← getNatField j "nSpecies", props, U := ← decIntCols j "U", D := ← decIntCols j "D",
+  let R : List (List Nat) := match decIntCols j "R" with
+    | .ok cols => cols.map (·.map Int.toNat)
+    | .error _ => []
+  return { nSpecies := ← getNatField j "nSpecies", props, U := ← decIntCols j "U", D := ← decIntCols j "D", R,
            rules, delays, safe := getBoolD j "safe" false, dt := ← getNum j "dt", t0 := ← getNum j "t0",
            twoPi := ← getNum j "twoPi" }
 
